@@ -65,9 +65,10 @@ TRUSTED = ["IEEE f64 arithmetic and glibc exp/log/pow shared by both executors",
            "are hand models covered by the bit-for-bit tie only",
            "u64 arithmetic modelled on Nat with explicit range checks (executor built with overflow checks)"]
 ASSUMPTIONS = ["x, p, lambda, alpha finite f64 unless a request says otherwise (NaN/inf probes are compared with the model only)",
-               "underflow is specified behaviour, not an error: logistic(x) is exactly 0 for x < -709.78 (exp(-x) = inf; the true value is a "
-               "positive subnormal) and a softmax entry more than 745.2 below the maximum is exactly 0; the oracle demands exactly that "
-               "(keys logistic:underflow-zero, softmax:underflow-zero) and values in [0,1] everywhere"]
+               "exact zeros are specified behaviour, not an error: logistic(x) is exactly 0 for x < -709.78 because exp(-x) OVERFLOWS to inf and "
+               "1/(1+inf) = 0 (the true value is a positive subnormal), and a softmax entry more than 745.2 below the maximum is exactly 0 because "
+               "its exponential UNDERFLOWS; the oracle demands exactly that "
+               (keys logistic:underflow-zero, softmax:underflow-zero) and values in [0,1] everywhere"]
 
 EPS = 2.0 ** -52
 TINY = 2.0 ** -1074
@@ -900,3 +901,43 @@ NOT_PROVED = [(_FLOAT_ENTRY if ("standard model" in str(x) and "softmax" in str(
 PROOF_MODULES = PROOF_MODULES + [m for m in ['Compute.Lemmas.FlModelGrid', 'Compute.Props.RoundingGrid'] if m not in PROOF_MODULES]
 REQUIRED_THEOREMS = REQUIRED_THEOREMS + [t for t in ['Cv.Rounding3U.logistic_range_ufl', 'Cv.Rounding3U.softmax_sum_error_ufl', 'Cv.FlModel.grid_abs_sub_le', 'Cv.FlModel.grid_idem', 'Cv.FlModel.grid_mono', 'Cv.FlModel.grid_rnd_one', 'Cv.FlModel.grid_rnd_natCast', 'Cv.FlModel.grid_rnd_dyadic', 'Cv.FlModel.f64grid_u', 'Cv.FlModel.f64grid_mono'] if t not in REQUIRED_THEOREMS]
 NOT_PROVED = list(NOT_PROVED) + ['theorems named stdmodel_* hold in the idealised standard model (fl(x) = x(1+d) for every operation, library functions with relative error <= u_f for every argument) at u = 2^-53; they describe binary64 only where nothing overflows or underflows (for exp: arguments in [-708.39, 709.78]); outside that range computed values may be exactly 0 or inf', 'under ExpLnUfl (exp computed as e^x(1+d)+eta, underflow allowed) logistic, softmax, RBF and RQ values are proved in [0,1] resp. >= 0 (namespace Rounding3U); strict positivity is a theorem of the no-underflow model only; logistic(800) = 1 and an RBF value of exactly 0 are exhibited', 'FlModel has a genuine instance, FlModel.grid p (radix 2, p digits, round to nearest, unbounded exponent; f64grid has u = 2^-53), proved to satisfy the standard model and to be idempotent and monotone, with integers <= 2^p and dyadics exact (Lemmas/FlModelGrid); headline rounding theorems are instantiated on it (Props/RoundingGrid); overflow and underflow remain outside the model']
+
+
+# --- FINAL block (owner of C16/C17, after review2-b): the complete, final NOT_PROVED as a literal list (supersedes every rewrite above), and
+# the theorems the claim text cites
+REQUIRED_THEOREMS = REQUIRED_THEOREMS + [t for t in [
+    "Cv.C17.binom_underflow", "Cv.C17.logit_defined_iff", "Cv.C17.logistic_mono", "Cv.C17.softmax_order_strict", "Cv.C17.softmax_length",
+    "Cv.C17.boxcox_rejects", "Cv.C17.boxcoxShifted_formula", "Cv.C17.boxcoxShifted_zero", "Cv.C17.boxcoxBody_tendsto_zero",
+    "Cv.C17.logGammaAcc_of_rel", "Cv.C17.altValue_bounds"] if t not in REQUIRED_THEOREMS]
+NOT_PROVED = [
+    "accuracy of libm exp/ln/pow (a hypothesis u_f of every float-level theorem; measured by the mpmath oracle)",
+    "logistic o logit = id is proved on the open interval (0,1) only; at p = 0 and p = 1 the real-number model carries the junk values of the "
+    "totalised log 0 and 1/0, the code returns -inf / +inf (proved to be the one-sided limits: logit_tendsto_zero / logit_tendsto_one) and the "
+    "oracle checks those two results exactly",
+    "accuracy of logistic against mpmath is SAMPLED (2e6 of the 2.29e9 f32 arguments = 0.09 % in the thorough tier, 2e4 in the quick tier); "
+    "range [0,1], monotonicity, reflection within 200 eps, the exact zeros and the model tie are decided on EVERY f32 in +-745 by the "
+    "exhaustive logsweep of the thorough tier only (quick: 12 chunks of 20000 patterns)",
+    "binom_coeff_alt: the accuracy of the Lanczos ln_gamma is a HYPOTHESIS (LogGammaAcc / LogGammaRelAcc) of binomAlt_exact_of_acc and its "
+    "corollaries, never established for the model ln_gamma (the C09 oracle enforces 1e-12 max(1,|ln Gamma|) and observes 2e-15 at f64), and the "
+    "f64 rounding of the two subtractions and of exp comes on top of it (added to the bound by the oracle); given delta = 1e-9 the result is "
+    "proved exact for C(n,k) <= 1.6e8 over the reals; symmetry is proved for commutative subtraction only (it fails at f64); for very large n "
+    "the absolute error of ln_gamma (about u n ln n) exceeds 1 and the result is meaningless (oracle bound vacuous there, tie only)",
+    "softmax theorems over the reals take the fold seed as any lower bound of the entries (the reals have no -infinity)",
+    "float-level theorems exist in two idealised models, both owned by Props/Rounding3 + Lemmas/LogRounding: (1) the standard model "
+    "(stdmodel_*, logistic_range, softmax_sum_error; every operation and exp/ln/pow with relative error only, NO underflow and NO overflow): "
+    "softmax entries > 0 and |sum - 1| <= gamma_(n+1) for lengths <= 1000 (gamma_1001), entries within an explicit factor of the exact ones, "
+    "logistic in (0,1] with relative error <= gamma_2 + gamma^f_1, logit and Box-Cox error bounds (Props/Rounding5); it describes binary64 only "
+    "while nothing under- or overflows, for exp: arguments in [-708.39, 709.78]; (2) the underflow-aware model ExpLnUfl (exp x = e^x (1+d) + eta; "
+    "underflow allowed, OVERFLOW still excluded): logistic_range_ufl gives logistic in [0,1], softmax_sum_error_ufl gives softmax entries >= 0 "
+    "and |sum - 1| <= gamma_(n+1) UNDER THE HYPOTHESIS hS that the computed sum of exponentials is positive (true at f64 because the term of "
+    "the maximum is exp(0) = 1; discharged in an example by the owner of that file, not in the theorem); the exact zeros of softmax "
+    "([0,-800,1e4] -> [0,0,1]) and of the RBF kernel are UNDERFLOW and are covered by these _ufl variants",
+    "NOT covered by either model: the exact 0 of logistic for x < -709.78 (577 001 f32 arguments in [-745, -709.78), e.g. logistic(-710.0) = 0 "
+    "while the true value is 4.5e-309). It comes from OVERFLOW of exp(-x) = exp(710) = inf and 1/(1+inf) = 0, not from underflow: in every "
+    "ExpLnUfl model logistic is strictly positive, so no theorem reaches that regime (and the strict positivity 0 < logistic is a theorem of "
+    "BOTH models, false of binary64 there). It is specified by the oracle clause logistic:underflow-zero (result exactly 0 iff exp(-x) = inf) "
+    "and decided on every f32 argument by the exhaustive logsweep of the thorough tier (0 violations, 577 001 exact zeros); at f64 the range "
+    "of logistic is [0,1]",
+    "overflow and underflow are outside FlModel altogether (its genuine instance FlModel.grid has an unbounded exponent, Lemmas/FlModelGrid); the "
+    "endpoints p = 0, 1 of logit (infinite results) are oracle only",
+]
